@@ -32,22 +32,27 @@ from . import common, util_lie as U
 from .common import Ctx
 
 META = {
-    "rule": "grid: theta ladder {0,1e-30,eps/2,eps(1-2^-10),eps,eps(1+2^-10),2eps,1e-12,1e-9,sqrt(eps),1e-6,1e-3,0.1,1,3,"
-            "pi-1e-6,pi,pi+1e-3,5,2pi-1e-6,2pi+1e-6,7} x signed sigma ladder {0,1e-30,eps/2,eps(1-2^-10),eps,eps(1+2^-10),2eps,"
-            "1e-12,1e-9,sqrt(eps),1e-6,1e-3,0.1,0.7,3,8} x random direction x translation magnitude ladder 0..1e3, "
-            "per type and dtype, shuffled into mixed-regime batches; random: every block drawn independently "
-            "(ladder / dense band around eps / around sqrt(eps) / log-uniform 1e-30..1e-3 / uniform(0,pi) / uniform(pi,7)), "
-            "random batch shape of rank 0..3 (extents 1..3) and occasionally an empty batch; a case is one algebra element; "
-            "non-trivial = not the zero element; distinct by (type, dtype, quantised |phi|, sign and quantised |sigma|, "
-            "quantised |tau|, branch bits)",
-    "trusted": ["mpmath.expm at 50 digits (oracle for the failing-input search and the sampled oracle stream)",
-                "IEEE rounding is not modelled: the theorems are exact identities / explicit truncation bounds over the reals, "
-                "the float accuracy at the property's tolerances is measured on the generated inputs"],
-    "assumptions": ["generator bounds: rotation angle <= 7, |log-scale| <= 8, |translation| <= 1e3, finite inputs",
+    "rule": "corpus (seed-independent): all pairs of corner values theta in {0,1e-30,eps-1ulp,eps,eps+1ulp,2eps,64eps,sqrt(eps),1e-3,1,"
+            "pi,pi+,2pi,7,4pi} x sigma in +-{0,1e-30,eps-1ulp,eps,eps+1ulp,2eps,64eps,2^20 eps,sqrt(eps),1e-3,1,8}, axis-aligned and "
+            "generic direction, fixed translations (0, O(1), 1e3, 1e-30, up to 1e9), quarter-decade log sweeps of theta (1e-18..10) "
+            "and |sigma| (1e-18..5.6, both signs), fixed mixed-regime batch cuts, degenerate shapes; grid: theta ladder x signed "
+            "sigma ladder x random direction x translation magnitude, shuffled into mixed-regime batches; random: every block "
+            "drawn independently (ladder / dense band around eps / around sqrt(eps) / log-uniform 1e-30..1e-3 / uniform(0,pi) / "
+            "uniform(pi,4pi); |sigma| <= 8; |tau| 0..1e3 and occasionally to 1e12), random batch shape of rank 0..3 and empty "
+            "batches, four ways of building/calling (x.Exp(), pp.Exp(x), pp.<alg>(data), non-contiguous input); all four types, "
+            "float32 and float64. A case is one algebra element; non-trivial = not the zero element; distinct by (type, dtype, "
+            "branch bit and quantised |phi|, branch bit, sign and quantised |sigma|, quantised |tau|)",
+    "trusted": ["mpmath.expm at 60 digits (oracle on the real code: sampled stream, confirmation of every disagreement, search, replay)",
+                "the generator matrices hatM / se3Gen / rxso3Gen / sim3Gen of Proofs/Lemmas/LieExp.lean are the standard hat maps "
+                "[[sigma*1 + phi^, tau],[0,0]] (the harness builds the same matrices independently for mpmath)",
+                "IEEE rounding is not modelled: the theorems are exact identities (exact regimes) and explicit truncation bounds "
+                "(thin Taylor regimes, <= 9*eps) over the reals; the float accuracy at the property's tolerances is measured"],
+    "assumptions": ["generator bounds: rotation angle <= 4*pi, |log-scale| <= 8, finite inputs",
                     "relative error of the rotation block is measured against 1 (unit quaternion / orthogonal matrix), of the "
-                    "scale block against e^sigma, of the translation block against |tau|_inf * max(1, (e^sigma-1)/sigma)"],
-    "partial": ["rounding: the clause 'relative error at most k*eps / k*sqrt(eps)' is theorem over the reals (exact regimes, and "
-                "explicit truncation bounds on the Taylor branches) + measured float agreement on sampled inputs"],
+                    "scale block against e^sigma, of the translation block against |tau|_inf * (e^sigma-1)/sigma"],
+    "partial": ["rounding: the clause 'relative error at most k*eps / k*sqrt(eps)' is decided as theorem over the reals (33 theorems: "
+                "matrix(Exp x) = exp(generator) in every exact regime of all four types, entrywise bounds <= 9*eps*e^|sigma|*(1+|tau|_1) "
+                "for every input) + measured agreement of the float code with the 192-bit model and with mpmath on the generated inputs"],
 }
 
 K_ROT, K_SCALE, K_TRANS, K_UNIT = 16.0, 16.0, 4.0, 8.0
